@@ -12,6 +12,16 @@ import (
 )
 
 func init() {
+	replayers["C17/reentrant-hook"] = func(c *Ctx, raw json.RawMessage) string {
+		var cs struct {
+			Style, E, Pos int
+			Verb          string
+		}
+		json.Unmarshal(raw, &cs)
+		redact.RegisterRedactErrorFn(func(err error, p redact.SafePrinter, verb rune) { c17RenderRe(err, p, verb, cs.Style, false) })
+		defer redact.RegisterRedactErrorFn(nil)
+		return c17EvalRe(cs.Style, cs.E, cs.Pos, []rune(cs.Verb)[0], nil)
+	}
 	checks["C17"] = checkC17
 	rules["C17"] = "three process-wide configurations (no hook, rendering hook, panicking hook) x 9 error values x 15 positions x the quick/full directive space; with a hook, a dispatched error must print exactly like an equivalent SafeFormatter proxy placed in the same position (same verb, safe/unsafe calls honoured), non-dispatch positions / Unsafe / SafeFormatter / SafeMessager errors must print as without a hook; distinct = distinct outputs"
 	replayers["C17/hook"] = func(c *Ctx, raw json.RawMessage) string {
@@ -139,6 +149,105 @@ func c17Render(text string, p redact.SafePrinter, verb rune, pan bool) {
 
 func c17Hook(err error, p redact.SafePrinter, verb rune)      { c17Render(err.Error(), p, verb, false) }
 func c17PanicHook(err error, p redact.SafePrinter, verb rune) { c17Render(err.Error(), p, verb, true) }
+
+// --- re-entrant hooks -----------------------------------------------------------
+// A hook may hand other errors (the cause of the one it renders) back to the printer it was given; those are
+// error values the printer formats through method dispatch, so the hook renders them too, at every depth.
+
+var c17ChainErrs = []error{
+	wrapErrT{"outer", errT{"inner" + mStart}},
+	wrapErrT{"o", wrapErrT{"mid", errors.New("leaf\nx")}},
+	wrapErrT{"o", &ptrErr{"p"}},
+	wrapErrT{"o", errSF{"sf"}},
+	wrapErrT{"o", wrapErrT{"mid", errSM{"sm"}}},
+	errT{"no cause"},
+}
+
+var c17ReStyles = []string{"Printf(%v, cause)", "Print(cause)", "Printf(%+v|%s, cause, cause)", "Print(Safe(cause))", "Printf(%v, []error{cause})", "Print(Unsafe(cause))"}
+
+func c17Own(err error) (string, error) {
+	if w, ok := err.(wrapErrT); ok {
+		return w.msg, w.inner
+	}
+	return err.Error(), nil
+}
+
+func c17RenderRe(err error, p redact.SafePrinter, verb rune, style int, proxy bool) {
+	msg, cause := c17Own(err)
+	p.SafeString("R<")
+	p.SafeRune(redact.SafeRune(verb))
+	p.SafeString(">")
+	p.UnsafeString(msg)
+	if cause != nil {
+		var c interface{} = cause
+		if proxy {
+			if _, own := cause.(redact.SafeFormatter); !own {
+				if _, own := cause.(redact.SafeMessager); !own {
+					c = c17ProxyRe{cause, style}
+				}
+			}
+		}
+		p.SafeString(" <- ")
+		switch style {
+		case 0:
+			p.Printf("%v", c)
+		case 1:
+			p.Print(c)
+		case 2:
+			p.Printf("%+v|%s", c, c)
+		case 3:
+			p.Print(redact.Safe(c))
+		case 4:
+			if ce, ok := c.(error); ok {
+				p.Printf("%v", []error{ce})
+			}
+		default:
+			// under Unsafe() the hook is bypassed: plain text of the real cause on both sides
+			p.Print(redact.Unsafe(cause))
+		}
+	}
+	p.SafeString(";")
+}
+
+type c17ProxyRe struct {
+	e     error
+	style int
+}
+
+func (p c17ProxyRe) Error() string { return p.e.Error() }
+func (p c17ProxyRe) SafeFormat(sp redact.SafePrinter, verb rune) {
+	c17RenderRe(p.e, sp, verb, p.style, true)
+}
+
+func c17EvalRe(style, e, pos int, verb rune, seen func(string)) string {
+	if !c17Positions[pos].Dispatch || (verb == 'w' && pos != 0) {
+		return ""
+	}
+	run := func(op interface{}) string {
+		var out string
+		pv, pan := recoverTo(func() {
+			if verb == 'w' {
+				s, _ := redact.HelperForErrorf("<%"+string(verb)+">", op)
+				out = string(s)
+			} else {
+				out = string(redact.Sprintf("<%"+string(verb)+">", op))
+			}
+		})
+		if pan {
+			return fmt.Sprintf("PANIC ESCAPED: %v", pv)
+		}
+		return out
+	}
+	err := c17ChainErrs[e]
+	got, want := run(c17Positions[pos].Mk(err)), run(c17Positions[pos].Mk(c17ProxyRe{err, style}))
+	if seen != nil {
+		seen(got)
+	}
+	if got != want {
+		return fmt.Sprintf("hook that renders an error and hands its cause back to the printer with %s: %%%c of %q in position %q = %q, want %q (every error reached through the printer is rendered by the hook, as the equivalent nest of SafeFormatters prints)", c17ReStyles[style], verb, err.Error(), c17Positions[pos].Name, got, want)
+	}
+	return ""
+}
 
 // --- positions ----------------------------------------------------------------
 
@@ -413,6 +522,20 @@ func checkC17(c *Ctx) {
 			}
 		}
 	})
+	// configuration 2b: hooks that re-enter the printer with the cause of the error they render
+	for style := range c17ReStyles {
+		style := style
+		redact.RegisterRedactErrorFn(func(err error, p redact.SafePrinter, verb rune) { c17RenderRe(err, p, verb, style, false) })
+		nC := len(c17ChainErrs)
+		c.Section(fmt.Sprintf("C17/reentrant-hook/%d", style), map[string]interface{}{"hook": c17ReStyles[style], "error_chains": nC, "positions": nP, "verbs": "vsdxqw"}, nC*nP, func(i int, w *Worker) {
+			for _, verb := range "vsdxqw" {
+				w.Eval()
+				if dt := c17EvalRe(style, i/nP, i%nP, verb, w.SeenS); dt != "" {
+					w.Fail("reentrant-hook", map[string]interface{}{"Style": style, "E": i / nP, "Pos": i % nP, "Verb": string(verb)}, dt)
+				}
+			}
+		})
+	}
 	// configuration 3: panicking hook
 	redact.RegisterRedactErrorFn(c17PanicHook)
 	c.Section("C17/panicking-hook", map[string]interface{}{"directives": sp.Size(), "errors": nE, "positions": nP}, sp.Size(), func(i int, w *Worker) {
